@@ -6,6 +6,14 @@
    branch of `NonTerminalNode.fuzz` (children read-only, arguments kept), `replace_multiple` on a read-only target,
    outside generated output, and after an argument changed (regen branch), the witness of
    `C16_parse_repair_breaks_inv` replayed on the implementation
+2b. correspondence for the WHOLE of `DerivationTree.replace_multiple` (Model/GenReplace.lean `replaceTop`): the real
+   function is run on real fuzzed trees with sources (constant / random-logged / dependent / converter / nested /
+   chained generators) and on perturbed copies of them (flags flipped, sources in odd places), with 1-3
+   replacements aimed at generated fields, their arguments (sources, sources of sources), nodes inside generated
+   output, nodes outside, terminals, other symbols; the model gets the values the generator expressions returned
+   (call by call) and the real parser's answers; result tree, sources, read-only flags, generator call log and
+   error kind must agree exactly.  The hypotheses and the conclusion of `C16_replace_multiple_inv` are evaluated on
+   every such run by the verified checkers.
 3. the property itself on real runs: the generator functions are wrapped so that EVERY return value is logged with
    the argument values; every emitted solution and every individual that reaches `Evaluator.evaluate_individual`
    is sent — with sources, read-only flags and the log — to the verified checker `genInvB`
@@ -90,7 +98,11 @@ def params_of(grammar, nt) -> list[str]:
 
 
 def spec_json(grammar) -> dict:
-    return {"gens": [[nt.name(), params_of(grammar, nt)] for nt in grammar.generators]}
+    """gens: parameters in the order of `generator.nonterminals.values()`; deps: `generator_dependencies(sym)` in
+    the iteration order of that set (what `_topological_sort` walks); rules: symbols with a rule"""
+    return {"gens": [[nt.name(), params_of(grammar, nt)] for nt in grammar.generators],
+            "deps": [[nt.name(), [d.name() for d in grammar.generator_dependencies(nt)]] for nt in grammar.generators],
+            "rules": [nt.name() for nt in grammar.rules]}
 
 
 class GenLog:
@@ -279,6 +291,13 @@ class Ctx:
             gens = _count_gen(m["tree"], {g[0] for g in q["spec"]["gens"]})
             self.run.case(m["tree"], gens > 0, None)
             self.run.count("generator_nodes:" + ("0" if gens == 0 else "1" if gens == 1 else "2+"))
+            if a["ok"] and not a.get("srcok", True):
+                # premise of GReachW.fresh / C16_reachable_inv_whole: sources only at generator-defined nodes
+                self.corr("sources_only_at_generator_nodes", False, {"origin": origin, "tree": m["tree"],
+                                                                     "spec": m.get("spec")})
+            elif a["ok"]:
+                self.corr_cases += 1
+                self.run.count("op:sources_only_at_generator_nodes")
             if not a["ok"]:
                 path, verdict = a["bad"]
                 kind = m.get("kind", "?")
@@ -590,6 +609,340 @@ def stage_ops(ctx: Ctx, rng, n: int) -> None:
              {"impl": gtree_json(res), "model": a[0]["tree"], "inv": a[1]})
 
 
+# ------------------------------------------------------------------------------------------------
+# correspondence: the whole of replace_multiple
+# ------------------------------------------------------------------------------------------------
+
+WHOLE_SPECS = [
+    ("chain", PY + '<start> ::= <a> "/" <x>\n<a> ::= r"[A-C]+" := up(str(<b>))\n<b> ::= r"[a-c]+" := rev(str(<c>))\n'
+              '<c> ::= r"[a-c]{1,3}"\n<x> ::= r"[0-9]"\n'),
+    ("chain_conv", PY + '<start> ::= <a> "/" <x>\n<a> ::= r"[A-C]+" := up(str(<b>))\n'
+                   '<b> ::= r"[a-c]+" := low(str(<a>))\n<x> ::= r"[0-9]"\n'),
+    ("const_param", PY + '<start> ::= <m> "." <x>\n<m> ::= r"[A-Ca-c]+" := up(str(<body>))\n<body> ::= <l>+ := "abc"\n'
+                    '<l> ::= r"[a-c]"\n<x> ::= r"[0-9]"\n'),
+    ("in_rep", PY + '<start> ::= <it>{1,3}\n<it> ::= <m> ";"\n<m> ::= <len> ":" <body> := frame(str(<body>))\n'
+               '<len> ::= r"[0-9]+"\n<body> ::= <l>{1,3} := unframe(str(<m>))\n<l> ::= r"[a-c]"\n'),
+    ("random_arg", PY + '<start> ::= <w> "=" <g>\n<w> ::= <g> "+" <k> := str(<k>) + "+" + pick()\n<g> ::= <l>+ := pick()\n'
+                   '<l> ::= r"[a-z]"\n<k> ::= r"[a-c]{1,2}"\n'),
+    ("unsound_conv", 'def fx(a):\n    return "x"\ndef hq(g):\n    return "q"\n<start> ::= <g> "-"\n'
+                     '<g> ::= r"[a-z]" := fx(str(<a>))\n<a> ::= r"[pq]" := hq(str(<g>))\n'),
+]
+
+
+class CallLog:
+    """every evaluation of a generator expression, in call order: [symbol, argument values, value] — value None
+    when the expression raised"""
+
+    def __init__(self):
+        self.calls: list[list] = []
+
+    def __enter__(self):
+        from fandango.errors import FandangoValueError
+        from fandango.language.grammar.grammar import Grammar
+        from fandango.language.symbols import NonTerminal
+        self._orig = Grammar.generate_string
+        log = self
+
+        def generate_string(g, symbol="<start>", sources=None):
+            nt = NonTerminal(symbol) if isinstance(symbol, str) else symbol
+            try:
+                out = log._orig(g, symbol, sources)
+            except FandangoValueError as e:
+                if "missing generator parameter" in str(e):
+                    raise
+                log.calls.append([nt.name(), None, None])
+                raise
+            except Exception:
+                log.calls.append([nt.name(), None, None])
+                raise
+            by_sym = {t.symbol.name(): t for t in out[0] if t.symbol.is_non_terminal}
+            log.calls.append([nt.name(), [text_units(by_sym[p]) for p in params_of(g, nt)], units(out[1])])
+            return out
+
+        Grammar.generate_string = generate_string
+        return self
+
+    def __exit__(self, *a):
+        from fandango.language.grammar.grammar import Grammar
+        Grammar.generate_string = self._orig
+        return False
+
+
+def _all_nodes(grammar, t, out: list, inside_gen=False, in_src=False) -> list:
+    out.append((t, inside_gen, in_src))
+    ig = inside_gen or (t.symbol.is_non_terminal and t.symbol in grammar.generators and grammar.is_use_generator(t))
+    for c in t.children:
+        _all_nodes(grammar, c, out, ig, in_src)
+    for s_ in t.sources:
+        _all_nodes(grammar, s_, out, False, True)
+    return out
+
+
+def _steps(node) -> list[int]:
+    from fandango.language.tree import ChildStep
+    return [2 * st.index if isinstance(st, ChildStep) else 2 * st.index + 1 for st in node.get_choices_path()]
+
+
+def _follow_steps(root, steps: list[int]):
+    cur = root
+    for st in steps:
+        cur = (cur.sources if st % 2 else cur.children)[st // 2]
+    return cur
+
+
+def _err_kind(e: BaseException) -> str:
+    from fandango.errors import FandangoParseError, FandangoValueError
+    if isinstance(e, FandangoParseError):
+        return "parseError"
+    if isinstance(e, FandangoValueError):
+        m = str(e)
+        for needle, kind in (("missing generator parameter", "missingParam"), ("Missing converter", "missingConverter"),
+                             ("not defined in grammar", "undefinedSymbol"), ("is not a nonterminal", "notNonterminal"),
+                             ("No generator found", "noGenerator")):
+            if needle in m:
+                return kind
+    if isinstance(e, (KeyError, ValueError)):
+        tb, fns = e.__traceback__, []
+        while tb is not None:
+            fns.append(tb.tb_frame.f_code.co_name)
+            tb = tb.tb_next
+        if "_topological_sort" in fns or (isinstance(e, ValueError) and fns and fns[-1] == "derive_sources"):
+            return "topoError"
+    return "other:" + type(e).__name__
+
+
+def _parents_ok(t) -> bool:
+    return all(c._parent is t and _parents_ok(c) for c in t.children) and \
+        all(s_._parent is t and _parents_ok(s_) for s_ in t.sources)
+
+
+def tree_from_json(tj: list):
+    """a real DerivationTree from the model's tree encoding (string grammars)"""
+    from fandango.language.symbols import NonTerminal, Terminal
+    from fandango.language.tree import DerivationTree
+    if tj[0] == "l":
+        return DerivationTree(Terminal("".join(chr(c) for c in tj[1])), [], read_only=bool(tj[2]))
+    return DerivationTree(NonTerminal(tj[1]), [tree_from_json(k) for k in tj[3]],
+                          sources=[tree_from_json(k) for k in tj[4]], read_only=bool(tj[2]))
+
+
+def _perturb(rng, tj: list) -> list:
+    """trees the operators need not produce (the theorem quantifies over all): flags flipped, sources moved onto
+    children, a source duplicated among the children"""
+    out = json.loads(json.dumps(tj))
+    nodes: list[list] = []
+
+    def walk(x):
+        nodes.append(x)
+        if x[0] == "n":
+            for k in x[3] + x[4]:
+                walk(k)
+    walk(out)
+    inner = [x for x in nodes if x[0] == "n"]
+    for _ in range(rng.choice([1, 2, 3])):
+        how = rng.choice(["flip", "flip", "move_sources", "dup_source", "drop_sources"])
+        x = rng.choice(inner)
+        if how == "flip":
+            y = rng.choice(nodes)
+            y[2] = not y[2]
+        elif how == "move_sources" and x[4]:
+            kids = [k for k in x[3] if k[0] == "n"]
+            if kids:
+                rng.choice(kids)[4].extend(json.loads(json.dumps(x[4])))
+        elif how == "dup_source" and x[4]:
+            x[3].append(json.loads(json.dumps(rng.choice(x[4]))))
+        elif how == "drop_sources":
+            x[4] = []
+    return out
+
+
+def whole_case(grammar, sj: dict, tree, pairs: list, log0: list) -> tuple[Optional[dict], Optional[dict]]:
+    """run the real replace_multiple; return (its canonical result, the request for the model)"""
+    before = gtree_json(tree)
+    repl = [[_steps(a), gtree_json(b)] for a, b in pairs]
+    with CallLog() as cl, contextlib.redirect_stderr(io.StringIO()):
+        try:
+            with limit(10):
+                res = tree.replace_multiple(grammar, list(pairs))
+            impl: dict = {"tree": gtree_json(res), "log": list(cl.calls)}
+        except (RecursionError, Timeout):
+            return None, None
+        except Exception as e:  # noqa
+            k = _err_kind(e)
+            if cl.calls and cl.calls[-1][2] is None and k.startswith("other:"):
+                k = "genRaised"
+            impl = {"err": k}
+    parses, seen = [], set()
+    for c in cl.calls:
+        if c[2] is None or (c[0], tuple(c[2])) in seen:
+            continue
+        seen.add((c[0], tuple(c[2])))
+        with contextlib.redirect_stderr(io.StringIO()):
+            pt = grammar.parse("".join(chr(u) for u in c[2]), c[0])
+        parses.append([c[0], c[2], None if pt is None else [gtree_json(k) for k in pt.children]])
+    req = {"op": "replace_multiple", "spec": sj, "tree": before, "repl": repl, "log": list(log0),
+           "values": [c[2] for c in cl.calls], "parses": parses, "fuel": 100000}
+    return impl, req
+
+
+def _judge_whole(ctx: Ctx, name: str, kinds: list[str], impl: dict, req: dict, a: dict, origin: str) -> None:
+    run = ctx.run
+    model = {"err": a["err"]} if "err" in a else {"tree": a["tree"], "log": a["log"]}
+    ok = impl == model
+    ctx.corr("replace_multiple_whole", ok, {"spec": name, "targets": kinds, "impl": impl, "model": model,
+                                           "request": {k: req[k] for k in ("spec", "tree", "repl", "values", "log")}})
+    run.case(["whole", req["tree"], req["repl"], req["values"]], True, None)
+    for kd in kinds:
+        run.count("whole_target:" + kd)
+    run.count("whole_origin:" + origin)
+    run.count("whole_replacements:" + str(len(req["repl"])))
+    run.count("whole_result:" + (impl.get("err") or ("changed" if impl["tree"] != req["tree"] else "unchanged")))
+    run.count("whole_generator_calls:" + str(min(len(req["values"]), 4)) + ("+" if len(req["values"]) >= 4 else ""))
+    if "err" not in a:
+        pre = a["inv0"] and a["srcok0"]
+        post = a["inv"] and a["srcok"]
+        run.count(f"whole_theorem:pre={pre}:installs={len(a['installs'])}:installs_ok={a['installs_ok']}:post={post}")
+        if pre and a["installs_ok"] and not post and ok:
+            # C16_replace_multiple_inv says this cannot happen for the model; reaching it means the driver's
+            # evaluation and the theorem disagree — machinery, not the implementation
+            raise MachineryError("C16: model run contradicts C16_replace_multiple_inv: " + json.dumps(req)[:800])
+
+
+def _pick_pairs(rng, grammar, tree, other) -> tuple[list, list[str]]:
+    nodes = _all_nodes(grammar, tree, [])
+    onodes = _all_nodes(grammar, other, [])
+
+    def cls(x):
+        t_, ig_, is_ = x
+        return ("leaf" if t_.symbol.is_terminal else "gen" if t_.symbol in grammar.generators else "plain", ig_, is_)
+    classes = sorted({cls(x) for x in nodes})
+    weights = [1 if c_[0] == "leaf" else 3 for c_ in classes]
+    pairs, kinds = [], []
+    for _ in range(rng.choice([1, 1, 2, 3])):
+        c_ = rng.choices(classes, weights)[0]
+        tgt, ig, insrc = rng.choice([x for x in nodes if cls(x) == c_])
+        how = rng.choice(["fuzz", "other", "parse", "diff", "self"])
+        repl = None
+        with contextlib.redirect_stderr(io.StringIO()):
+            try:
+                if tgt.symbol.is_terminal:
+                    repl = rng.choice([x for x, _, _ in onodes if x.symbol.is_terminal]).deepcopy(copy_parent=False)
+                    how = "leaf"
+                elif how == "fuzz":
+                    repl = grammar.fuzz(tgt.symbol, 10)
+                elif how == "other":
+                    cands = [x for x, _, _ in onodes if x.symbol == tgt.symbol]
+                    repl = rng.choice(cands) if cands else None
+                elif how == "parse":
+                    cands = [x for x, _, _ in onodes if x.symbol == tgt.symbol]
+                    repl = grammar.parse(str(rng.choice(cands)), tgt.symbol) if cands else None
+                elif how == "diff":
+                    repl = rng.choice([x for x, _, _ in onodes if x.symbol.is_non_terminal])
+                else:
+                    repl = tgt.deepcopy(copy_parent=False)
+                    repl.set_all_read_only(False)
+            except Exception:  # noqa
+                repl = None
+        if repl is None:
+            continue
+        pairs.append((tgt, repl))
+        kinds.append(c_[0] + (":inside_generated" if ig else "") + (":in_sources" if insrc else "") + ":" + how)
+    return pairs, kinds
+
+
+def stage_whole(ctx: Ctx, rng, n: int) -> None:
+    run = ctx.run
+    specs = [(s_[0], s_[1]) for s_ in SPECS] + WHOLE_SPECS
+    parsed: dict[str, Any] = {}
+    pending: list[tuple] = []
+    for i in range(n):
+        name, text = specs[i % len(specs)]
+        if name not in parsed:
+            try:
+                with limit(8):
+                    parsed[name] = gio.parse_spec(text)[0]
+            except Exception as e:  # noqa
+                raise MachineryError(f"C16 spec {name} no longer parses: {e!r}")
+        grammar = parsed[name]
+        sj = spec_json(grammar)
+        random.seed(rng.getrandbits(32))
+        with CallLog() as fl, contextlib.redirect_stderr(io.StringIO()):
+            try:
+                with limit(5):
+                    tree = grammar.fuzz("<start>", rng.choice([10, 30]))
+                    other = grammar.fuzz("<start>", rng.choice([10, 30]))
+            except Exception as e:  # noqa
+                run.count("whole_fuzz_raised:" + type(e).__name__)
+                continue
+        if any(c[2] is None for c in fl.calls):
+            continue
+        try:
+            origin = "fuzzed"
+            if rng.random() < 0.3:
+                tree = tree_from_json(_perturb(rng, gtree_json(tree)))
+                origin = "perturbed"
+            if not _parents_ok(tree):
+                run.count("whole_parent_pointers_inconsistent")
+                continue
+            with CallLog() as fl2:
+                pairs, kinds = _pick_pairs(rng, grammar, tree, other)
+            if not pairs or any(c[2] is None for c in fl2.calls):
+                continue
+            impl, req = whole_case(grammar, sj, tree, pairs, list(fl.calls) + list(fl2.calls))
+        except NotModelled as e:
+            run.count("not_modelled:" + str(e)[:30])
+            continue
+        if impl is None:
+            run.count("whole_recursion_or_timeout")
+            continue
+        pending.append((name, kinds, impl, req, origin))
+    # fixed cases: the witnesses of Props/C16.lean §6 on the implementation
+    pending.extend(_witness_cases(run))
+    if pending:
+        answers = driver_ask("drv_gen", [p_[3] for p_ in pending], timeout=900)
+        for (name, kinds, impl, req, origin), a in zip(pending, answers):
+            _judge_whole(ctx, name, kinds, impl, req, a, origin)
+            if origin.startswith("witness:"):
+                want = {"witness:parse_repair": (True, False), "witness:unsound_converter": (True, False),
+                        "witness:cascade": (True, True)}[origin]
+                got = (a.get("inv0") and a.get("srcok0"), a.get("inv") and a.get("srcok"))
+                ctx.corr(origin.replace(":", "_"), "err" not in a and got == want and impl == {"tree": a["tree"], "log": a["log"]},
+                         {"impl": impl, "model": a, "want_pre_post": want})
+
+
+def _witness_cases(run: Run) -> list[tuple]:
+    out = []
+    # C16_whole_parse_repair_breaks_inv
+    grammar, _ = gio.parse_spec('<start> ::= <g> "-"\n<g> ::= r"[a-z]+" := "abc"\n')
+    with CallLog() as fl:
+        t = grammar.fuzz("<start>", 10)
+    impl, req = whole_case(grammar, spec_json(grammar), t, [(t.children[0], grammar.parse("xyz", "<g>"))], list(fl.calls))
+    out.append(("witness", ["gen:parse"], impl, req, "witness:parse_repair"))
+    # C16_FullStatement_refuted: a converter that is not inverse to the generator; crossover of <g> onto itself
+    grammar, _ = gio.parse_spec(dict(WHOLE_SPECS)["unsound_conv"])
+    for seed in range(40):
+        random.seed(seed)
+        with CallLog() as fl:
+            t = grammar.fuzz("<start>", 10)
+        if str(t.children[0].sources[0]) == "p":
+            break
+    else:
+        raise MachineryError("C16: could not fuzz the unsound-converter witness")
+    g = t.children[0]
+    impl, req = whole_case(grammar, spec_json(grammar), t, [(g, g.deepcopy(copy_parent=False))], list(fl.calls))
+    out.append(("witness", ["gen:self"], impl, req, "witness:unsound_converter"))
+    # C16_cascade_example: the argument of the argument changes
+    grammar, _ = gio.parse_spec(dict(WHOLE_SPECS)["chain"])
+    random.seed(3)
+    with CallLog() as fl:
+        t = grammar.fuzz("<start>", 10)
+    c = t.children[0].sources[0].sources[0]
+    new_c = grammar.parse("ba" if str(c) != "ba" else "ab", "<c>")
+    impl, req = whole_case(grammar, spec_json(grammar), t, [(c, new_c)], list(fl.calls))
+    out.append(("witness", ["plain:in_sources:parse"], impl, req, "witness:cascade"))
+    return out
+
+
 def _clear_ro(tj: list) -> None:
     tj[2] = False
     if tj[0] == "n":
@@ -685,6 +1038,8 @@ def main(tier: str) -> int:
     t0 = time.time()
     stage_ops(ctx, run.rng("ops"), 60 if quick else 600)
     run.coverage["t_ops_s"] = round(time.time() - t0, 1)
+    stage_whole(ctx, run.rng("whole"), 160 if quick else 2000)
+    run.coverage["t_whole_s"] = round(time.time() - t0, 1)
     stage_evolution(ctx, run.rng("evolution"), 63 if quick else 700, 6 if quick else 8)
     run.coverage["t_evolution_s"] = round(time.time() - t0, 1)
     run.coverage["generated_flags"] = gen["flags"]
